@@ -939,6 +939,14 @@ def sorted_optional_keys(model: Model, fn: FunctionInfo) -> list[Lint]:
     if not params:
         return out
     stored = {n.id for n in ast.walk(fn.node) if isinstance(n, ast.Name) and isinstance(n.ctx, ast.Store)}
+    # the None entry taken out in place beforehand (`groups.pop(None, ..)`, `del groups[None]`, `.discard(None)`)
+    for n in ast.walk(fn.node):
+        if isinstance(n, ast.Call) and isinstance(n.func, ast.Attribute) and n.func.attr in ("pop", "discard", "remove") and isinstance(n.func.value, ast.Name) and n.args and isinstance(n.args[0], ast.Constant) and n.args[0].value is None:
+            stored.add(n.func.value.id)
+        if isinstance(n, ast.Delete):
+            for t in n.targets:
+                if isinstance(t, ast.Subscript) and isinstance(t.value, ast.Name) and isinstance(t.slice, ast.Constant) and t.slice.value is None:
+                    stored.add(t.value.id)
     for n in ast.walk(fn.node):
         if not (isinstance(n, ast.Call) and isinstance(n.func, ast.Name) and n.func.id == "sorted" and len(n.args) == 1 and not any(k.arg == "key" for k in n.keywords)):
             continue
